@@ -22,6 +22,7 @@ struct Emit { uint64_t tick; uint32_t id; uint8_t dlc; uint8_t d[8]; bool operat
 
 struct TpdoRun : NodeEnv {
     std::vector<int16_t> appTmr; bool unjudged = false;
+    std::vector<int> retrig = std::vector<int>(CO_TPDO_N, 0), retrigReal = std::vector<int>(CO_TPDO_N, 0);   // re-triggers left for the COPdoTransmit callback (model / real)
     int m = M_PREOP; std::vector<TpdoModel> T; std::vector<ObjDef> objs; std::vector<Emit> exp; std::map<uint32_t, uint32_t> val;   // model copy of the mapped objects' values
     uint32_t &mv(uint16_t idx, uint8_t sub) { return val[(uint32_t)idx << 8 | sub]; }
     TpdoRun(const Plan &p, Cov &c, bool vb) : NodeEnv(p, c, vb) {}
@@ -51,6 +52,7 @@ struct TpdoRun : NodeEnv {
         { std::vector<uint32_t> links; uint32_t total = 0; for (size_t i = 0; i < objs.size() && i < 3; i++) { if (total + objs[i].width > 8) break; total += objs[i].width; links.push_back(CO_LINK(objs[i].idx, objs[i].sub, objs[i].width * 8)); } add_rpdo(specs, 0, 0x200u + nodeId, 254, links, false); rpdoObjs = links.size(); }
         NodeCfg cfg; cfg.nodeId = nodeId; cfg.freq = freq; cfg.tmrNum = 32;
         w.build(0, cfg, specs); w.init(0); w.start(0);
+        w.onPdoTransmit = [this](const Frame &f) { for (size_t n = 0; n < T.size() && n < (size_t)CO_TPDO_N; n++) if (T[n].exists && T[n].active && T[n].id == f.id && retrigReal[n] > 0) { retrigReal[n]--; COTPdoTrigPdo(N()->TPdo, (uint16_t)n); return; } };
         if (CONodeGetErr(N()) != CO_ERR_NONE) fail("setup/node-error", "node reports an error after initialisation");
     }
     size_t rpdoObjs = 0;
@@ -74,6 +76,7 @@ struct TpdoRun : NodeEnv {
         if (t.inh > 0) { t.inhibited = true; t.inhEnd = tick + t.inh; }
         if (t.ev > 0) { t.evOn = true; t.evLo = t.evHi = tick + t.ev; }
         frameOf(t, tick);
+        { size_t n = (size_t)(&t - &T[0]); if (n < retrig.size() && retrig[n] > 0 && t.atype >= 254) { retrig[n]--; cov.hit("trigger-from-inside-the-transmit-callback"); nontrivial = true; tx(t, tick); } }   // the application's COPdoTransmit callback triggers the same TPDO again
     }
     // advance the model over (from, to]; 'observed' = ticks at which frames of each TPDO id were seen in this operation
     void advance(uint64_t from, uint64_t to, const std::map<uint32_t, std::vector<uint64_t>> &observed) {
@@ -104,6 +107,7 @@ struct TpdoRun : NodeEnv {
         if (k == "sync" && o.arg(0, 1) > 1) { int64_t cnt = std::min<int64_t>(o.arg(0), 2000); cov.hit("long-sync-run"); if (cnt >= 256) cov.hit("sync-run-of-256-or-more"); for (int64_t i = 0; i < cnt && v.ok; i++) op(Op("sync")); return; }   // every SYNC of a run is judged on its own
         size_t mk = w.mark(); uint64_t t0 = now(); exp.clear(); bool judge = true;
         if (k == "obj" || k == "tpdo") return;
+        if (k == "retrig") { size_t n = (size_t)(o.arg(0) % CO_TPDO_N); if (!T[n].exists || T[n].type < 254) return; int c = (int)(o.arg(1) % 3) + 1; retrig[n] = c; retrigReal[n] = c; return; }
         // F15: the application takes every free timer slot. Capacity is what the property assumes, so from here on nothing is compared -
         // until the slots are given back, everything has settled, and the closing probe asks for the one thing that must survive: no trigger is lost for good
         if (k == "fill") { w.cur = 0; int16_t id; while ((id = COTmrCreate(&N()->Tmr, 1000000, 0, [](void *) {}, nullptr)) >= 0) appTmr.push_back(id); (void)CONodeGetErr(N()); unjudged = true; cov.hit("F15-timer-pool-exhausted"); nontrivial = true; return; }
@@ -199,6 +203,7 @@ Plan gen_tpdo(Rng &r, bool thorough) {
         if (c < 7) p.ops.push_back(Op("tick", {r.chance(1, 2) ? r.range(1, 4) : r.pick<int64_t>({1, 2, 3, 5, 10, 20, 21, 40, 100}) * u * (int64_t)f / 1000 + (int64_t)r.below(2)}));
         else if (c < 11) p.ops.push_back(Op(r.chance(3, 4) ? "wr" : "sdowr", {(int64_t)r.below((uint32_t)nobj), r.chance(1, 4) ? 0 : (int64_t)r.below(0x10000) * 65537}));
         else if (c < 14) p.ops.push_back(Op("trigpdo", {(int64_t)r.below(4)}));
+        else if (c == 14 && r.chance(1, 2)) p.ops.push_back(Op("retrig", {(int64_t)r.below(4), (int64_t)r.below(3)}));
         else if (c == 14) p.ops.push_back(Op("trigobj", {(int64_t)r.below((uint32_t)nobj)}));
         else if (c < 17) { if (r.chance(1, 12)) p.ops.push_back(Op("sync", {r.chance(1, 2) ? r.range(250, 600) : r.range(2, 1100)})); else p.ops.push_back(Op("sync")); }
         else if (c == 17) { std::vector<uint8_t> b; for (int j = 0; j < 8; j++) b.push_back(r.byte()); p.ops.push_back(Op("rpdo", {}, b)); }
